@@ -482,6 +482,11 @@ func (p *twkbParser) nextPolygon() (Polygon, error) {
 		ls := NewLineString(NewSequence(coords, p.ctype))
 		rings = append(rings, ls)
 	}
+	if len(rings) == 0 {
+		// An empty Polygon inside a MultiPolygon. Keep the coordinate type,
+		// otherwise the whole MultiPolygon would be reduced to XY.
+		return Polygon{}.ForceCoordinatesType(p.ctype), nil
+	}
 	return NewPolygon(rings), nil
 }
 
